@@ -108,8 +108,12 @@ fn do_query(s: &mut Box<dyn Dyn>, sem: &str, kind: &str, arg: usize, cert: bool)
     match r {
         Ok((b, e)) => json!({"ev": "q", "sem": sem, "kind": kind, "arg": arg, "cert": cert, "st": if b { "yes" } else { "no" },
             "has_ext": e.is_some(), "ext": e.unwrap_or_default(), "panic": ""}),
-        Err(e) => json!({"ev": "q", "sem": sem, "kind": kind, "arg": arg, "cert": cert, "st": "none", "has_ext": false, "ext": [],
-            "panic": util::panic_message(&e)}),
+        Err(e) => {
+            // the per-query cap on SAT calls was hit: the query was not going to terminate (C18)
+            let capped = e.downcast_ref::<crate::obs::CapExceeded>().is_some();
+            json!({"ev": "q", "sem": sem, "kind": kind, "arg": arg, "cert": cert, "st": "none", "has_ext": false, "ext": [],
+                "panic": if capped { "SAT-call cap exceeded".to_string() } else { util::panic_message(&e) }, "capped": capped})
+        }
     }
 }
 
